@@ -29,8 +29,9 @@ _SPACES = {}
 def worker_init(tier="quick", seed=0):
     _CFG.update(tier=tier, seed=seed)
     # register the harness schemas + harvesters once (the way notebooks do it)
-    for cid in M.TOP_CLASSES + M.EXTRA_CLASSES:
-        M.harvester_class(cid)
+    for F in M.SCHEMA_LIKE:
+        for cid in M.class_ids(F):
+            M.harvester_class(F, cid)
 
 
 def space(factory, cid, cap):
@@ -234,6 +235,10 @@ def check_pair(F, cid, sx, sy, mx, my, ow, stats=None):
     (X, Y), snaps, out = _operands(F, cid, specs, modes)
     got = _outcome(lambda: merge2(P, X, Y, ow))
     got_n = _outcome(lambda: P.merge(X, Y, allow_overwrite=ow))
+    if not ow:
+        # not passing the flag at all = no overwrite permission given
+        got_d = _outcome(lambda: X.merge_with(Y) if isinstance(X, PartialModel) else P.merge(X, Y))
+        got_dn = _outcome(lambda: P.merge(X, Y))
     out += _mutations(cid, (X, Y), snaps, modes)
     acc = ref_accepted((sx, sy), ow, got)
     law = "left-identity" if not sx else "right-identity" if not sy else "result-equals-reference"
@@ -243,8 +248,15 @@ def check_pair(F, cid, sx, sy, mx, my, ow, stats=None):
     d = _differ(cid, specs, got, got_n)
     if d:
         out.append(_finding("merge()-is-fold-of-merge_with", d, f"merge_with: {_show(got)}; P.merge(x, y): {_show(got_n)}"))
+    if not ow:
+        for o, how in ((got_d, "x.merge_with(y)"), (got_dn, "P.merge(x, y)")):
+            d = _differ(cid, specs, got, o)
+            if d:
+                out.append(
+                    _finding("no-flag-means-no-overwrite", d, f"allow_overwrite=False: {_show(got)}; {how} without the flag: {_show(o)}")
+                )
     if stats is not None:
-        stats["merges"] += 2
+        stats["merges"] += 2 if ow else 4
         stats[got[0]] += 1
     return out
 
@@ -343,7 +355,7 @@ def check_single(F, cid, spec, mode, stats=None):
 HARVEST_VARIANTS = ("harvesters", "files", "file-harvester-file")
 
 
-def _sources(cid, specs, variant, d):
+def _sources(F, cid, specs, variant, d):
     from pathlib import Path
 
     srcs = []
@@ -355,11 +367,11 @@ def _sources(cid, specs, variant, d):
                 f.write(M.YAML_HEADER + M.to_yaml(M.plain(s, sets_as_lists=True)))
             srcs.append(Path(p))
         else:
-            srcs.append(M.make_harvester(cid, s))
+            srcs.append(M.make_harvester(F, cid, s))
     return srcs
 
 
-def check_harvest(cid, specs, variant, stats=None):
+def check_harvest(F, cid, specs, variant, stats=None):
     """harvest() over the sources in the given order agrees with the reference fold.
 
     harvest() merges without overwrite permission on the pinned tree while its docstring speaks of
@@ -367,7 +379,7 @@ def check_harvest(cid, specs, variant, stats=None):
     """
     from metador_core.harvester import harvest
 
-    S = M.py_class("schema", cid)
+    S = M.py_class(F, cid)
     out = []
     d = env.fresh_dir("c14h")
     try:
@@ -376,12 +388,12 @@ def check_harvest(cid, specs, variant, stats=None):
             tree = (tree, s)
         acc = ref_accepted(tree, False)
         acc += [a for a in ref_accepted(tree, True) if not any(_same(a, b) for b in acc)]
-        got = _outcome(lambda: harvest(S, _sources(cid, specs, variant, d), return_partial=True))
+        got = _outcome(lambda: harvest(S, _sources(F, cid, specs, variant, d), return_partial=True))
         j = _judge(cid, specs, acc, got)
         if j:
             out.append(_finding("harvest-is-reference-fold", j, f"harvest(return_partial=True) = {_show(got)}; documented: {_show_acc(acc)}"))
         elif got[0] == "ok" and M.is_complete(cid, got_spec := next(a[2] for a in acc if _same(a, got))):
-            full = _outcome(lambda: harvest(S, _sources(cid, specs, variant, d)))
+            full = _outcome(lambda: harvest(S, _sources(F, cid, specs, variant, d)))
             j = _judge(cid, specs, [("ok", got[1], got_spec)], full)
             if j is None and not isinstance(full[2], S):
                 j = ("(whole)", S.__name__, type(full[2]).__name__)
@@ -410,7 +422,7 @@ def run_case(case):
     if k == "single":
         return check_single(F, cid, specs[0], modes[0])
     if k == "harvest":
-        return check_harvest(cid, specs, modes[0])
+        return check_harvest(F, cid, specs, modes[0])
     raise KeyError(k)
 
 
@@ -430,7 +442,7 @@ def case_applicable(case):
     if not _legal(F, case["specs"]):
         return False
     if case["kind"] == "harvest":
-        return F == "schema" and all(M.applicable("harvester", F, cid, s) for s in case["specs"])
+        return F in M.SCHEMA_LIKE and all(M.applicable("harvester", F, cid, s) for s in case["specs"])
     return all(M.applicable(m, F, cid, s) for s, m in zip(case["specs"], case["modes"]))
 
 
@@ -549,8 +561,8 @@ def work_triples(item):
 
 
 def work_harvest(item):
-    cid, cap, xi = item
-    sp = [s for s in space("schema", cid, cap) if M.applicable("harvester", "schema", cid, s)]
+    F, cid, cap, xi = item
+    sp = [s for s in space(F, cid, cap) if M.applicable("harvester", F, cid, s)]
     acc = _Acc()
     if xi >= len(sp):
         return acc.result()
@@ -558,7 +570,7 @@ def work_harvest(item):
     for sy in sp:
         for sz in sp:
             for v in HARVEST_VARIANTS:
-                acc.add(("harvest", "schema", cid, (sx, sy, sz), (v,), False), check_harvest(cid, (sx, sy, sz), v, acc.stats))
+                acc.add(("harvest", F, cid, (sx, sy, sz), (v,), False), check_harvest(F, cid, (sx, sy, sz), v, acc.stats))
     return acc.result()
 
 
@@ -659,7 +671,7 @@ def characterize(case, finding):
     if case["kind"] == "harvest":
         fails = [v for v in HARVEST_VARIANTS if _still(dict(case, modes=[v]), law, err)]
         info["modes"] = "all" if len(fails) == len(HARVEST_VARIANTS) else "+".join(fails)
-        info["factory"] = "schema"
+        info["factory"] = case["factory"]
         return info
     n = len(case["modes"])
     appl, fails = [], []
@@ -675,14 +687,17 @@ def characterize(case, finding):
         info["modes"] = "+".join(fails)
     else:
         info["modes"] = "x".join(case["modes"])  # only the mixed combination of the witness
-    other = "schema" if case["factory"] == "plain" else "plain"
-    oc = dict(case, factory=other)
-    both = False
-    try:
-        both = bool(case_applicable(oc) and _still(oc, law, err))
-    except Exception:  # noqa: BLE001  (e.g. "" is not a legal schema value)
+    info["factory"] = case["factory"]
+    if case["factory"] != "installed":
+        other = "schema" if case["factory"] == "plain" else "plain"
+        oc = dict(case, factory=other)
         both = False
-    info["factory"] = "both" if both else case["factory"]
+        try:
+            both = bool(case_applicable(oc) and _still(oc, law, err))
+        except Exception:  # noqa: BLE001
+            both = False
+        if both:
+            info["factory"] = "both"
     return info
 
 
